@@ -44,6 +44,8 @@ VARIABLES
   viaCache,   \* tasks submitted with use_cache = TRUE
   slot,       \* tasks that hold a worker slot (process started, outcome not yet collected)
   inrun,      \* tasks inside run()
+  nslot,      \* nslot[t] = number of processes started for t whose outcome is not yet collected (a task can hold
+  nrun,       \* more than one slot / be inside run() more than once only if something starts it twice): nrun likewise
   runCount,   \* runCount[t] = number of times run() was entered for t
   loadCount,  \* loadCount[t] = number of cache loads of t's result by a worker
   fin,        \* worker-level outcome: "none" | "ok" | "fail"
@@ -184,9 +186,15 @@ C03_MarkedOwn ==
 
 (* C04  per-type and global concurrency limits are never exceeded *)
 
-C04_Workers == Cardinality(slot) <= MaxW /\ Cardinality(inrun) <= MaxW
+(* counted per process, not per task: two processes executing the same task at once occupy two workers *)
+RECURSIVE SumOf(_, _)
+SumOf(f, S) == IF S = {} THEN 0 ELSE LET x == CHOOSE x \in S : TRUE IN f[x] + SumOf(f, S \ {x})
+C04_Workers == /\ Cardinality(slot) <= MaxW /\ Cardinality(inrun) <= MaxW
+               /\ SumOf(nslot, Tasks) <= MaxW /\ SumOf(nrun, Tasks) <= MaxW
 C04_Type == \A y \in Types : /\ Cardinality(TypeOf(slot, y)) <= cfg.maxpar[y]
                              /\ Cardinality(TypeOf(inrun, y)) <= cfg.maxpar[y]
+                             /\ SumOf(nslot, TypeOf(Tasks, y)) <= cfg.maxpar[y]
+                             /\ SumOf(nrun, TypeOf(Tasks, y)) <= cfg.maxpar[y]
 
 (* C05  runnable work is started whenever capacity is free *)
 
